@@ -244,6 +244,20 @@ def F53():
     a = model_matrix(f, pd.DataFrame({"x": x}), context={}).values
     b = model_matrix(f, pd.DataFrame({"x": x.astype(float)}), context={}).values
     return not np.allclose(a, b)
+def F54():
+    x = np.linspace(0, 1, 9)
+    try:
+        m = model_matrix("cr(x, df=2) - 1", pd.DataFrame({"x": x}), context={})
+    except Exception:
+        return True
+    return not np.allclose(m.values, np.column_stack([1 - x, x]))
+def F55():
+    d = pd.DataFrame({"s": list("abcabd"), "x": [1.0, 2, 3, 4, 5, 6]})
+    m = model_matrix("hashed(s, levels=5) + x", d, context={})
+    try:
+        return m.model_spec.get_model_matrix(d.iloc[:0]).shape != (0, m.shape[1])
+    except Exception:
+        return True
 
 ids = sys.argv[1:] or [f"F{i}" for i in range(1, 26)]
 for i in ids:
